@@ -26,4 +26,21 @@ CHECKS = {
         note="Assumes Python's try/except semantics and that all emitters "
              "paste into one render function namespace; does not evaluate the "
              "fallback expression or the rendered text."),
+    "C05": dict(
+        technique="abstract interpretation of the scope-binding emitters "
+                  "(pairing of save/restore fragments, liveness of backup "
+                  "locals), sibling agreement of reserved-name guards, path "
+                  "enumeration of NameTransform and Scope",
+        text="Decides for all templates that every emitted 'save outer "
+             "value' fragment of tal:define / tal:repeat has its 'restore' "
+             "under the same compile-time condition, after the element body, "
+             "on the same per-node backup local with the same undefined "
+             "marker, in reverse order; that non-local definitions are also "
+             "written to the render-wide context and merged back after "
+             "internal and external macro calls which receive a copy of the "
+             "scope; that both binders reject the same reserved names; that "
+             "user names are rewritten to context lookups (builtins only as "
+             "default); that Scope layers local over shared root.",
+        note="Structural necessary conditions; the rendered text of concrete "
+             "nestings is not computed.  dict semantics of CPython trusted."),
 }
